@@ -57,7 +57,9 @@ func filterLocator(f Filter) Locator {
 func tryLocation(s string) (Location, bool) {
 	var parser pars.Parser
 	parser = pars.Any(parseComplement(&parser), parseRange, parsePoint)
-	result, err := parser.Parse(pars.FromString(s))
+	// The whole string has to be a location: 5'UTR and 3'UTR are feature keys,
+	// not the points 5 and 3.
+	result, err := pars.Exact(parser).Parse(pars.FromString(s))
 	if err != nil {
 		return nil, false
 	}
